@@ -158,6 +158,8 @@ func DefaultParamSets(k Kind) []Params {
 				mod(1, func(b []byte) { b[8] = b[8]&^0x80 | 0x40 }),    // interlaced instead of progressive source
 				mod(0, func(b []byte) { b[8] |= 0x20; b[8] &^= 0x10 }), // non-packed constraint, not frame-only
 				mod(1, func(b []byte) { b[3] |= 0x40 }),                // general_profile_space 1
+				mod(0, func(b []byte) { b[3] |= 0x80 }),                // general_profile_space 2
+				mod(1, func(b []byte) { b[3] |= 0xc0 }),                // general_profile_space 3
 			)
 		}
 	case AV1:
